@@ -138,7 +138,9 @@ def order_tokens(tokens: list):
         else:
             n_operators += 1 if t.type == TokenType.Op1 else 2
 
-            while operators:
+            # A prefix (unary) operator applies to what follows it: it must never
+            # flush operators that are still waiting for their right operand
+            while operators and t.type != TokenType.Op1:
                 if t.priority <= operators[-1].priority:
                     operands.append(operators.pop())
                 else:
